@@ -31,3 +31,106 @@ pub struct StreamsSnapshot {
     /// frames queued for sending (all streams)
     pub send_buffered: usize,
 }
+
+/// Lock-order monitor (hook H4): the two mutexes of `proto::streams` are replaced by this wrapper when the feature is on.
+/// Every acquisition checks, per thread, that locks are taken in increasing rank (stream state = 1, send buffer = 2) and
+/// never twice: a thread that takes rank r while it holds a rank >= r could deadlock with another thread (or with itself).
+/// Violations are counted, not raised: the harness reads and resets the counters.
+pub mod lock_order {
+    use std::cell::RefCell;
+    use std::ops::{Deref, DerefMut};
+    use std::sync::atomic::{AtomicU64, Ordering};
+    use std::sync::{LockResult, PoisonError};
+
+    thread_local! {
+        static HELD: RefCell<Vec<u8>> = const { RefCell::new(Vec::new()) };
+    }
+
+    thread_local! {
+        static LOCAL_INVERSIONS: std::cell::Cell<u64> = const { std::cell::Cell::new(0) };
+    }
+
+    /// out-of-order acquisitions made by the calling thread since the last call
+    pub fn take_local_inversions() -> u64 {
+        LOCAL_INVERSIONS.with(|c| c.replace(0))
+    }
+
+    /// acquisitions of a lower or equal rank while a higher or equal one was held
+    pub static INVERSIONS: AtomicU64 = AtomicU64::new(0);
+    /// all acquisitions (vacuity guard)
+    pub static ACQUISITIONS: AtomicU64 = AtomicU64::new(0);
+
+    pub trait Ranked {
+        const RANK: u8;
+    }
+
+    #[derive(Debug)]
+    pub struct Mutex<T> {
+        inner: std::sync::Mutex<T>,
+    }
+
+    pub struct Guard<'a, T> {
+        rank: u8,
+        guard: std::sync::MutexGuard<'a, T>,
+    }
+
+    impl<T: Ranked> Mutex<T> {
+        pub fn new(t: T) -> Mutex<T> {
+            Mutex {
+                inner: std::sync::Mutex::new(t),
+            }
+        }
+
+        pub fn lock(&self) -> LockResult<Guard<'_, T>> {
+            let rank = T::RANK;
+            ACQUISITIONS.fetch_add(1, Ordering::Relaxed);
+            HELD.with(|h| {
+                if h.borrow().iter().any(|&r| r >= rank) {
+                    INVERSIONS.fetch_add(1, Ordering::Relaxed);
+                    LOCAL_INVERSIONS.with(|c| c.set(c.get() + 1));
+                }
+            });
+            let r = self.inner.lock();
+            HELD.with(|h| h.borrow_mut().push(rank));
+            match r {
+                Ok(guard) => Ok(Guard { rank, guard }),
+                Err(p) => Err(PoisonError::new(Guard {
+                    rank,
+                    guard: p.into_inner(),
+                })),
+            }
+        }
+    }
+
+    impl<T> Mutex<T> {
+        /// (used by `Debug` only; not monitored)
+        pub fn try_lock(&self) -> std::sync::TryLockResult<std::sync::MutexGuard<'_, T>> {
+            self.inner.try_lock()
+        }
+    }
+
+    impl<T> Drop for Guard<'_, T> {
+        fn drop(&mut self) {
+            let rank = self.rank;
+            HELD.with(|h| {
+                let mut h = h.borrow_mut();
+                if let Some(pos) = h.iter().rposition(|&r| r == rank) {
+                    h.remove(pos);
+                }
+            });
+        }
+    }
+
+    impl<T> Deref for Guard<'_, T> {
+        type Target = T;
+        fn deref(&self) -> &T {
+            &self.guard
+        }
+    }
+
+    impl<T> DerefMut for Guard<'_, T> {
+        fn deref_mut(&mut self) -> &mut T {
+            &mut self.guard
+        }
+    }
+}
